@@ -264,6 +264,11 @@ func HandleSetFileInfo(cc *hotline.ClientConn, t *hotline.Transaction) (res []ho
 		return res
 	}
 
+	// The info fork of the file root itself would live next to the root, i.e. outside of it.
+	if fullFilePath == filepath.Clean(cc.FileRoot()) {
+		return cc.NewErrReply(t, "Cannot change the root folder.")
+	}
+
 	hlFile, err := hotline.NewFileWrapper(cc.Server.FS, fullFilePath, 0)
 	if err != nil {
 		return res
